@@ -5,6 +5,7 @@ package main
 import (
 	"fmt"
 	"go/constant"
+	"go/token"
 	"go/types"
 	"strings"
 
@@ -456,3 +457,225 @@ func copyNoMakeThenAppend(c *Ctx, r *Report, rule string) {
 }
 
 var _ = types.Typ
+
+// parsersKeepCase: no RDATA parser folds the case of a name it stores: what String printed is what parse stores
+// (CanonicalName / ToLower results never reach a field of the record).
+func parsersKeepCase(c *Ctx, r *Report, rule string) {
+	r.rule(rule, 20, "no RDATA parser stores the result of CanonicalName / strings.ToLower / strings.ToUpper into a field of the record")
+	n := 0
+	for _, fn := range c.allFuncs() {
+		if fn.Name() != "parse" || fn.Signature.Recv() == nil {
+			continue
+		}
+		n++
+		var bad []string
+		allInstrs(fn, func(in ssa.Instruction) {
+			st, ok := in.(*ssa.Store)
+			if !ok {
+				return
+			}
+			if _, isField := st.Addr.(*ssa.FieldAddr); !isField {
+				return
+			}
+			if bt, isB := st.Val.Type().Underlying().(*types.Basic); !isB || bt.Info()&types.IsString == 0 {
+				return
+			}
+			for o := range sliceOf(st.Val) {
+				call, isCall := o.(*ssa.Call)
+				if !isCall {
+					continue
+				}
+				switch calleeNameSSA(&call.Call) {
+				case "CanonicalName", "strings.ToLower", "strings.ToUpper", "asciiLower", "asciiUpper":
+					bad = append(bad, fmt.Sprintf("%s stores %s", c.pos(st.Pos()), describeValue(st.Val)))
+				}
+			}
+		})
+		r.check(len(bad) == 0, rule, fnDisplay(fn), c.pos(fn.Pos()), "names stored as written", "%s: the name read back differs in case from the name that was printed, so the RDATA octets differ after a round trip through text", strings.Join(uniqStrings(bad), "; "))
+	}
+	if n == 0 {
+		r.undecided(rule, "parse methods", "", "no parse method found")
+	}
+}
+
+// rsaVerifyUnconditional: in RRSIG.Verify, once the RSA key has been decoded every path reaches the verifier: no
+// further refusal stands between the key and rsa.VerifyPKCS1v15 (which itself refuses a signature of the wrong
+// length; a test made here on a length computed from the modulus' bit length refuses keys whose modulus is not a whole
+// number of octets).
+func rsaVerifyUnconditional(c *Ctx, r *Report, rule string) {
+	r.rule(rule, 1, "in RRSIG.Verify every path from the decoded RSA key reaches rsa.VerifyPKCS1v15")
+	fn := c.ssaFunc("RRSIG.Verify")
+	if fn == nil {
+		r.cerr(rule, "RRSIG.Verify", "function not found")
+		return
+	}
+	r.fn("RRSIG.Verify")
+	n := 0
+	var bad []string
+	for _, ci := range callsIn(fn, "(DNSKEY).publicKeyRSA") {
+		call := ci.(*ssa.Call)
+		// the successor on which the key is known not to be nil
+		for _, b := range fn.Blocks {
+			ifi, ok := b.Instrs[len(b.Instrs)-1].(*ssa.If)
+			if !ok {
+				continue
+			}
+			atom, pol := condAtom(ifi.Cond)
+			bin, ok := atom.(*ssa.BinOp)
+			if !ok || (bin.Op != token.EQL && bin.Op != token.NEQ) || !(bin.X == ssa.Value(call) && isNilConst(bin.Y)) {
+				continue
+			}
+			nonNilWhenTrue := (bin.Op == token.NEQ) == pol
+			start := b.Succs[1]
+			if nonNilWhenTrue {
+				start = b.Succs[0]
+			}
+			n++
+			passed, blk := mustPass(fn, start, -1, func(x ssa.Instruction) bool {
+				cl, ok := x.(*ssa.Call)
+				return ok && calleeNameSSA(&cl.Call) == "rsa.VerifyPKCS1v15"
+			})
+			if !passed && blk != nil {
+				bad = append(bad, c.pos(blk.Instrs[len(blk.Instrs)-1].Pos()))
+			}
+		}
+	}
+	r.check(n > 0 && len(bad) == 0, rule, "RRSIG.Verify:rsa", c.pos(fn.Pos()), "key -> verifier", "with the RSA key decoded, Verify can return at %s without having asked rsa.VerifyPKCS1v15: a valid signature is refused for a reason other than the verifier's verdict (signatures of keys whose modulus is not a multiple of 8 bits long, say)", strings.Join(bad, ", "))
+}
+
+// ecdsaKeyReaderRefusals: readPrivateKeyECDSA refuses only what the base64 decoder refuses: the private scalar is a
+// fixed-width field, any octet string of it is a value (one in 256 starts with a zero octet).
+func ecdsaKeyReaderRefusals(c *Ctx, r *Report, rule string) {
+	r.rule(rule, 1, "readPrivateKeyECDSA returns no error but the base64 decoder's")
+	fn := c.ssaFunc("readPrivateKeyECDSA")
+	if fn == nil {
+		r.cerr(rule, "readPrivateKeyECDSA", "function not found")
+		return
+	}
+	r.fn("readPrivateKeyECDSA")
+	n := 0
+	var bad []string
+	for _, rp := range returnPoints(fn, 1) {
+		v := rp.Results[1]
+		if isNilConst(v) {
+			continue
+		}
+		n++
+		ok := false
+		if ex, isEx := v.(*ssa.Extract); isEx {
+			if call, isCall := ex.Tuple.(*ssa.Call); isCall && calleeNameSSA(&call.Call) == "fromBase64" {
+				ok = true
+			}
+		}
+		if !ok {
+			bad = append(bad, fmt.Sprintf("%s returns %s", c.pos(rp.Pos), describeValue(v)))
+		}
+	}
+	r.check(len(bad) == 0, rule, "readPrivateKeyECDSA", c.pos(fn.Pos()), fmt.Sprintf("%d error returns, all the decoder's", n), "%s: a private key file that PrivateKeyString wrote is refused when read back (a scalar that starts with a zero octet, one key in 256)", strings.Join(bad, "; "))
+}
+
+// generateOffsetLocal: the offset added to the iterator value for one `$` of a $GENERATE template is the offset of
+// that `$`'s own modifier, or 0: it is not kept in the reader from one `$` to the next.
+func generateOffsetLocal(c *Ctx, r *Report, rule string) {
+	r.rule(rule, 1, "the offset added to the $GENERATE iterator comes from the modifier of the same $ (or is 0), not from the reader's state")
+	fn := c.ssaFunc("generateReader.ReadByte")
+	if fn == nil {
+		r.cerr(rule, "generateReader.ReadByte", "function not found")
+		return
+	}
+	r.fn("generateReader.ReadByte")
+	n := 0
+	var bad []string
+	allInstrs(fn, func(in ssa.Instruction) {
+		bin, ok := in.(*ssa.BinOp)
+		if !ok || bin.Op != token.ADD {
+			return
+		}
+		var other ssa.Value
+		isCur := func(v ssa.Value) bool {
+			ld, ok := v.(*ssa.UnOp)
+			return ok && readsField("generateReader", "cur")(ld.X)
+		}
+		switch {
+		case isCur(bin.X):
+			other = bin.Y
+		case isCur(bin.Y):
+			other = bin.X
+		default:
+			return
+		}
+		// the sum that is printed (boxed for Fprintf), not the advance of the iterator itself
+		printed := false
+		if bin.Referrers() != nil {
+			for _, ref := range *bin.Referrers() {
+				if _, isMI := ref.(*ssa.MakeInterface); isMI {
+					printed = true
+				}
+			}
+		}
+		if !printed {
+			return
+		}
+		n++
+		for _, l := range phiLeaves(other) {
+			if k, isK := constIntOf(l); isK && k == 0 {
+				continue
+			}
+			if ex, isEx := l.(*ssa.Extract); isEx {
+				if call, isCall := ex.Tuple.(*ssa.Call); isCall && calleeNameSSA(&call.Call) == "modToPrintf" {
+					continue
+				}
+			}
+			bad = append(bad, fmt.Sprintf("%s adds %s", c.pos(bin.Pos()), describeValue(l)))
+		}
+	})
+	r.check(n > 0 && len(bad) == 0, rule, "generateReader.ReadByte:offset", c.pos(fn.Pos()), "0 or this modifier's offset", "%s to the iterator value: an offset given in one ${offset,...} modifier stays in force for every later plain $ of the template (host$ A 10.0.0.${10} names the hosts 0, 11, 12, 13)", strings.Join(bad, "; "))
+}
+
+// pointerOffsetLimit: a name suffix is remembered for compression only at an offset a pointer can express: 14 bits,
+// at most 16383. The insert into the compression map is under a test that keeps its offset below 16384.
+func pointerOffsetLimit(c *Ctx, r *Report, rule string) {
+	r.rule(rule, 1, "packDomainName enters a suffix into the compression map only under an offset test that admits at most 16383")
+	fn := c.ssaFunc("packDomainName")
+	if fn == nil {
+		r.cerr(rule, "packDomainName", "function not found")
+		return
+	}
+	r.fn("packDomainName")
+	n := 0
+	var bad []string
+	for _, ci := range callsIn(fn, "(compressionMap).insert") {
+		n++
+		best := int64(-1)
+		for _, f := range factsAt(fn, ci.Block()) {
+			bin, ok := f.Atom.(*ssa.BinOp)
+			if !ok {
+				continue
+			}
+			k, isK := constIntOf(bin.Y)
+			if !isK || k < 16000 || k > 17000 {
+				continue
+			}
+			var hi int64 = -1
+			switch {
+			case bin.Op == token.LSS && f.Holds:
+				hi = k - 1
+			case bin.Op == token.LEQ && f.Holds:
+				hi = k
+			case bin.Op == token.GEQ && !f.Holds:
+				hi = k - 1
+			case bin.Op == token.GTR && !f.Holds:
+				hi = k
+			}
+			if hi >= 0 && (best < 0 || hi < best) {
+				best = hi
+			}
+		}
+		if best < 0 {
+			bad = append(bad, fmt.Sprintf("%s: no test of the offset against the 14-bit limit", c.pos(ci.Pos())))
+		} else if best > 16383 {
+			bad = append(bad, fmt.Sprintf("%s: offsets up to %d are entered", c.pos(ci.Pos()), best))
+		}
+	}
+	r.check(n > 0 && len(bad) == 0, rule, "packDomainName:insert", c.pos(fn.Pos()), "offset <= 16383", "%s: a pointer has 14 bits, so a later name that shares the suffix is written with a pointer to offset 0 (16384 & 0x3FFF): it decodes as another name, or as a loop", strings.Join(bad, "; "))
+}
